@@ -711,6 +711,8 @@ class Exec(object):
         if self.concrete:
             return None
         c = self.engine.contracts.get(fr.fref.fq) if fr.fref is not None else None
+        if fr.fref is not None and self.top_fq and self.top_fq.split("#")[0] == fr.fref.fq:
+            c = self.engine.contracts.get(self.top_fq)     # the typing variant under verification
         if c is None:
             return None
         return (c.get("loops") or {}).get(fr.loop_ord.get(id(node)))
@@ -1241,6 +1243,20 @@ class Exec(object):
                     if not self.ctx.branch(y != 0):
                         raise Raised(ZeroDivisionError, line, implicit=True)
                 return mk_real(x / y)
+            if isinstance(op, (ast.Mod, ast.FloorDiv)):
+                if not self.frame.spec:
+                    if not self.ctx.branch(y != 0):
+                        raise Raised(ZeroDivisionError, line, implicit=True)
+                yv = z3.simplify(y)
+                if z3.is_rational_value(yv) and yv.numerator_as_long() > 0:
+                    fl = z3.ToReal(z3.ToInt(x / yv))       # floor for a positive divisor
+                    if yv.denominator_as_long() == 1:
+                        # arithmetic fact handed to the solver: for integral x, floor(x / c) == x div c
+                        c = yv.numerator_as_long()
+                        self.ctx.assume(z3.Implies(z3.IsInt(x), z3.ToInt(x / yv) == z3.ToInt(x) / c))
+                        self.ctx.tags.add("arithmetic lemma instantiated: floor(x/c) == int(x) div c for integral x")
+                    return mk_real(fl if isinstance(op, ast.FloorDiv) else x - yv * fl)
+                raise Unsupported("real %% or // with a non-constant or negative divisor")
             raise Unsupported("real operator %s" % type(op).__name__)
         x, y = zint(a), zint(b)
         if isinstance(op, ast.Add):
